@@ -17,6 +17,7 @@ Sub-checks
 """
 
 import os
+import pathlib
 import re
 import signal
 import tempfile
@@ -28,8 +29,9 @@ import numpy as np
 from hypothesis import strategies as st
 
 import partitura.score as S
-from partitura.io.exportmatch import save_match
+from partitura.io.exportmatch import matchfile_from_alignment, save_match
 from partitura.io.importmatch import load_match
+from partitura.io.matchfile_base import MatchFile
 from pbt.core import Outcome, SubCheck, SutRaised, call, load_known_findings
 from pbt.gen import c08_align as A
 from pbt.gen import scorespec as G
@@ -49,6 +51,10 @@ ASSUMPTIONS = [
     "articulations other than staccato and accent, fermatas, fingerings, grace type, clefs, tuplets and rests are written or generated but not demanded back",
     "a watchdog of 30 s per call (3 s on inputs of the two open findings that produce fractional time points) turns a non-terminating save/load into a discrepancy (calls take milliseconds)",
     "ornament type: a string t and the one-element list [t] are treated as the same type",
+    "second generation: save_match(assume_unfolded=True) of the triple returned by load_match(create_score=True), loaded again, is compared with the first load (alignment, performed notes in ticks, pedals, clock, score notes in quarters with spelling / voice / staff / supported articulations, measures, signatures); only done when the first load was judged and agreed with the spec",
+    "load_match(first_note_at_zero=True, pedal_threshold=t) is compared with the plain load of the same file: note ticks and seconds shifted by the first onset tick, pedals and alignment unchanged, the part's threshold equal to t",
+    "header texts are compared with the info lines of the file after strip(); tempo_indication and diff_score_version_notes (documented parameters of matchfile_from_alignment) are checked in the text of the file; diff_score_version_notes are only given together with assume_part_unfolded=True (they name ids of the unfolded part)",
+    "a performed part built by PerformedPart.from_note_array has single-precision times: the float32 value is the original time",
     "fixtures: only the three files under tests/data/match exist (formats 1.0.0 and 0.4.0); the duplicates sub-check writes 1.0.0 and 0.5.0 files itself",
 ]
 
@@ -328,6 +334,22 @@ def classify(o, spec, sr):
     o.cls("ppq-mpq-not-default", (spec["ppq"], spec["mpq"]) != (480, 500000))
     o.cls("perf-id-without-n", any(not str(p["id"]).startswith("n") for p in spec["pnotes"]))
     o.cls("leading-rest", sr.first_onset > 0)
+    # generator audit
+    vs = sorted(set(n["voice"] for n in ps["notes"] if n["kind"] in ("note", "grace") and n.get("voice") is not None))
+    o.cls("voice-numbers-with-gaps", bool(vs) and vs != list(range(1, len(vs) + 1)))
+    o.cls("voice-0", 0 in vs)
+    o.cls("voice-number-of-two-digits", any(v >= 10 for v in vs))
+    o.cls("staff-3", any(n.get("staff") == 3 for n in ps["notes"]))
+    o.cls("double-alteration", any(n["kind"] in ("note", "grace") and n["alter"] in (2, -2) for n in ps["notes"]))
+    o.cls("natural-stated-as-none", any(n["kind"] in ("note", "grace") and n["alter"] is None for n in ps["notes"]))
+    o.cls("api:" + spec.get("api", "save_match"))
+    o.cls("score-in-part-group", spec.get("score_in_group", False) and spec.get("api", "save_match") == "save_match")
+    o.cls("out:" + spec.get("out_as", "str"))
+    o.cls("header-texts-given", bool(spec.get("header")))
+    o.cls("pedal-dicts-without-track-channel", spec.get("bare_controls", False) and bool(spec["controls"]))
+    o.cls("performed-part-from-note-array", spec.get("pp_build", "dict") == "note_array")
+    o.cls("tempo-indication", spec.get("tempo_indication") is not None)
+    o.cls("diff-score-version-notes", bool(spec.get("diff_notes")))
     bars_with_onsets = set(sr.bar_of(t) for (t, _, _, _, _) in sr.sounding)
     o.cls("bar-without-note-onset", len(bars_with_onsets) < len(ps["measures"]))
     o.nontrivial = bool((labels["deletion"] and labels["insertion"]) or sr.pickup or any(bt != 4 for bt in beat_types))
@@ -357,8 +379,32 @@ def oracle(spec):
 
     with tempfile.TemporaryDirectory() as tmp:
         out = os.path.join(tmp, "c08.match")
+        header = dict(spec.get("header") or {})
+        hkw = dict(header)
+        if spec.get("header_path") and "score_filename" in hkw:
+            hkw["score_filename"] = pathlib.PurePosixPath(hkw["score_filename"])
+        api, out_as = spec.get("api", "save_match"), spec.get("out_as", "str")
+        diff_notes = list(spec.get("diff_notes") or []) if unfolded else []
         try:
-            guarded(save_match, alignment, perf_data, score_data, out, mpq=mpq, ppq=ppq, assume_unfolded=unfolded)
+            if api == "from_alignment":
+                # the function behind save_match, with its two further documented parameters
+                ret = guarded(matchfile_from_alignment, alignment, ppart, part, mpq=mpq, ppq=ppq, assume_part_unfolded=unfolded,
+                              tempo_indication=spec.get("tempo_indication"), diff_score_version_notes=diff_notes or None, **hkw)
+            elif out_as == "none":
+                ret = guarded(save_match, alignment, perf_data, score_data, None, mpq=mpq, ppq=ppq, assume_unfolded=unfolded, **hkw)
+            else:
+                ret = guarded(save_match, alignment, perf_data, score_data, pathlib.Path(out) if out_as == "pathlib" else out,
+                              mpq=mpq, ppq=ppq, assume_unfolded=unfolded, **hkw)
+                if ret is not None:
+                    o.add("save-match-returned-something-with-out-given", got=type(ret).__name__)
+            if api == "from_alignment" or out_as == "none":
+                if not isinstance(ret, MatchFile):
+                    o.add("no-matchfile-returned", got=type(ret).__name__)
+                    return o
+                guarded(ret.write, pathlib.Path(out) if out_as == "pathlib" else out)
+            if not os.path.exists(out):
+                o.add("no-file-written", out_as=out_as, api=api)
+                return o
         except SutRaised as e:
             if len(matched_onsets) < 2 and not e.kind.startswith("sut-hang"):
                 o.excluded.append("export-raises-with-fewer-than-two-matched-onsets")
@@ -394,6 +440,19 @@ def oracle(spec):
             except SutRaised as e2:
                 o.add("load-" + e2.kind, text=e2.text)
                 return o
+        # ---- audit: the loaded triple saved again, and the file loaded with other options -------------
+        second = reloaded = None
+        if scr is not None and spec.get("resave", False):
+            second = resave(o, tmp, perf, al2, scr, mpq, ppq)
+        rl = spec.get("reload")
+        if rl and perf is not None:
+            try:
+                reloaded = guarded(load_match, out, create_score=False, first_note_at_zero=rl["first_note_at_zero"], pedal_threshold=rl["pedal_threshold"])
+            except SutRaised as e:
+                o.add("reload-" + e.kind, text=e.text, options=rl)
+
+    # ---- audit: header texts, tempo indication, notes marked as another score version ---------------
+    check_header_lines(o, spec, text, header, diff_notes)
 
     # ---- header: clock units and rate ------------------------------------------------------
     info = {}
@@ -464,7 +523,12 @@ def oracle(spec):
     for a in spec["alignment"]:
         if "performance_id" in a:
             label_of[pid_out(a["performance_id"])] = a["label"]
-    exp_notes = {pid_out(n["id"]): n for n in spec["pnotes"]}
+    exp_notes = {pid_out(n["id"]): dict(n) for n in spec["pnotes"]}
+    if spec.get("pp_build", "dict") == "note_array":
+        # the times of a note-array part are single-precision values; they are the original times
+        for n in exp_notes.values():
+            on32 = np.float32(n["on"])
+            n["on"], n["off"] = float(on32), float(np.float32(on32 + np.float32(n["off"] - n["on"])))
     got_notes = {}
     dup = []
     for n in pp2.notes:
@@ -546,6 +610,9 @@ def oracle(spec):
     if (getattr(pp2, "ppq", None), getattr(pp2, "mpq", None)) != (ppq, mpq):
         o.add("loaded-performed-part-clock-differs", got=[getattr(pp2, "ppq", None), getattr(pp2, "mpq", None)], expected=[ppq, mpq])
 
+    if reloaded is not None:
+        compare_reloaded(o, pp2, al2, reloaded, spec["reload"], ppq, mpq)
+
     # ---- score ----------------------------------------------------------------------------------------
     if scr is None:
         return o
@@ -553,8 +620,138 @@ def oracle(spec):
     if len(parts2) != 1:
         o.add("score-part-count", n=len(parts2))
         return o
+    n_before = len(o.discs)
     check_score(o, spec, sr, parts2[0], sfx)
+    if second is not None and len(o.discs) == n_before:
+        compare_generations(o, (perf, al2, scr), second)
     return o
+
+
+HEADER_ATTR = {"performer": "performer", "composer": "composer", "piece": "piece", "score_filename": "scoreFileName",
+               "performance_filename": "midiFileName"}
+ANY_INFO_RE = re.compile(r"^info\(([A-Za-z]+),(.*)\)\.\s*$")
+SNOTE_ATTR_RE = re.compile(r"^snote\(([^,]+),.*,\[([^\]]*)\]\)-")
+
+
+def check_header_lines(o, spec, text, header, diff_notes):
+    info = {}
+    tempo_lines, marked, all_ids = [], set(), set()
+    for line in text.splitlines():
+        m = ANY_INFO_RE.match(line)
+        if m:
+            info.setdefault(m.group(1), []).append(m.group(2))
+        m = SCOREPROP_RE.match(line)
+        if m and m.group(1) == "tempoIndication":
+            tempo_lines.append(m.group(2))
+        m = SNOTE_ATTR_RE.match(line)
+        if m:
+            all_ids.add(m.group(1))
+            if "diff_score_version" in [a.strip() for a in m.group(2).split(",")]:
+                marked.add(m.group(1))
+    for key, attr in sorted(HEADER_ATTR.items()):
+        want = [str(header[key]).strip()] if key in header else ["-"]
+        if info.get(attr) != want:
+            o.add("header-line-wrong", attribute=attr, got=info.get(attr), expected=want)
+    ti = spec.get("tempo_indication") if spec.get("api") == "from_alignment" else None
+    if tempo_lines != ([ti] if ti is not None else []):
+        o.add("tempo-indication-line-wrong", got=tempo_lines, expected=ti)
+    want_marked = set(diff_notes) & all_ids
+    if marked != want_marked and spec.get("api") == "from_alignment":
+        o.add("diff-score-version-marks-wrong", got=sorted(marked)[:6], expected=sorted(want_marked)[:6])
+
+
+def resave(o, tmp, perf, al2, scr, mpq, ppq):
+    """save_match applied to what load_match returned (the usual way of editing an alignment), loaded again."""
+    out2 = os.path.join(tmp, "second.match")
+    try:
+        guarded(save_match, al2, perf, scr, out2, mpq=mpq, ppq=ppq, assume_unfolded=True)
+        return guarded(load_match, out2, create_score=True)
+    except SutRaised as e:
+        o.add("resave-" + e.kind, text=e.text)
+        return None
+
+
+def _score_view(scr):
+    p = list(scr.parts)[0]
+    d = [int(x) for x in np.unique(p._quarter_durations)]
+    if len(d) != 1 or not all(_isint(tp.t) for tp in p._points):
+        return None
+    d = d[0]
+    notes = sorted((n.id, str(Fraction(int(n.start.t), d)), str(Fraction(int(n.duration_tied), d)), str(n.step).upper(), int(n.alter or 0), int(n.octave),
+                    n.voice, n.staff, tuple(sorted(a for a in (n.articulations or []) if a in SUPPORTED_ART)), type(n).__name__) for n in p.notes_tied)
+    return {
+        "notes": notes,
+        "measures": sorted((str(Fraction(int(m.start.t), d)), str(Fraction(int(m.end.t), d))) for m in p.iter_all(S.Measure)),
+        "time_signatures": collapse(sorted((str(Fraction(int(x.start.t), d)), int(x.beats), int(x.beat_type)) for x in p.iter_all(S.TimeSignature))),
+        "key_signatures": collapse(sorted((str(Fraction(int(x.start.t), d)), int(x.fifths), x.mode or "major") for x in p.iter_all(S.KeySignature))),
+    }
+
+
+def _perf_view(perf):
+    pp = list(perf.performedparts)[0]
+    return {
+        "notes": sorted((n["id"], int(n["midi_pitch"]), int(n["velocity"]), int(n["note_on_tick"]), int(n["note_off_tick"]), int(n.get("channel", 0))) for n in pp.notes),
+        "pedals": sorted((int(c["number"]), round(float(c["time"]), 9), int(c["value"])) for c in pp.controls),
+        "clock": (pp.ppq, pp.mpq),
+    }
+
+
+def compare_generations(o, first, second):
+    """The file written from a loaded (performance, alignment, score) denotes the same data again."""
+    o.cls("loaded-triple-saved-again")
+    a1, a2 = Counter(al_key(a) for a in first[1]), Counter(al_key(a) for a in second[1])
+    if a1 != a2:
+        o.add("resave-alignment-differs", missing=sorted((a1 - a2).elements(), key=repr)[:4], extra=sorted((a2 - a1).elements(), key=repr)[:4])
+    p1, p2 = _perf_view(first[0]), _perf_view(second[0])
+    for k in ("notes", "pedals", "clock"):
+        if p1[k] != p2[k]:
+            d1 = [x for x in p1[k] if x not in p2[k]] if isinstance(p1[k], list) else p1[k]
+            d2 = [x for x in p2[k] if x not in p1[k]] if isinstance(p2[k], list) else p2[k]
+            o.add("resave-performance-%s-differ" % k, first=d1[:4] if isinstance(d1, list) else d1, second=d2[:4] if isinstance(d2, list) else d2)
+    s1, s2 = _score_view(first[2]), _score_view(second[2])
+    if s1 is None or s2 is None:
+        o.add("resave-score-not-on-an-integer-grid", first=s1 is None, second=s2 is None)
+        return
+    for k in ("notes", "measures", "time_signatures", "key_signatures"):
+        if s1[k] != s2[k]:
+            o.add("resave-score-%s-differ" % k.replace("_", "-"), first=[x for x in s1[k] if x not in s2[k]][:4], second=[x for x in s2[k] if x not in s1[k]][:4])
+
+
+def compare_reloaded(o, pp_first, al_first, reloaded, rl, ppq, mpq):
+    """load_match with first_note_at_zero / pedal_threshold against the plain load of the same file: note times
+    shifted by the first onset (ticks and seconds; only when both are positive, as documented by the code's own
+    guard), everything else equal; the threshold is the part's threshold."""
+    o.cls("loaded-again-with-options")
+    perf2, al2 = reloaded[0], reloaded[1]
+    pp2 = list(perf2.performedparts)[0]
+    if pp2.sustain_pedal_threshold != rl["pedal_threshold"]:
+        o.add("reload-pedal-threshold-not-set", got=pp2.sustain_pedal_threshold, expected=rl["pedal_threshold"])
+    if Counter(al_key(a) for a in al2) != Counter(al_key(a) for a in al_first):
+        o.add("reload-alignment-differs")
+    n1 = {n["id"]: n for n in pp_first.notes}
+    n2 = {n["id"]: n for n in pp2.notes}
+    if sorted(n1) != sorted(n2):
+        o.add("reload-notes-differ", missing=sorted(set(n1) - set(n2))[:4], extra=sorted(set(n2) - set(n1))[:4])
+        return
+    shift = 0
+    if rl["first_note_at_zero"] and n1:
+        shift = min(int(n["note_on_tick"]) for n in n1.values())
+        o.cls("first-note-at-zero-with-positive-first-onset", shift > 0)
+    for k in sorted(n1):
+        a, b = n1[k], n2[k]
+        for ft, fs in (("note_on_tick", "note_on"), ("note_off_tick", "note_off")):
+            et = int(a[ft]) - shift
+            es = float(Fraction(et) * mpq / (10 ** 6 * ppq))
+            if int(b[ft]) != et or abs(float(b[fs]) - es) > 1e-9 * (1 + abs(es)):
+                o.add("reload-first-note-at-zero-times-wrong", id=k, field=ft, got=[int(b[ft]), float(b[fs])], expected=[et, es], shift_ticks=shift)
+                return
+        if (int(a["midi_pitch"]), int(a["velocity"])) != (int(b["midi_pitch"]), int(b["velocity"])):
+            o.add("reload-notes-differ", id=k)
+            return
+    c1 = sorted((int(c["number"]), round(float(c["time"]), 9), int(c["value"])) for c in pp_first.controls)
+    c2 = sorted((int(c["number"]), round(float(c["time"]), 9), int(c["value"])) for c in pp2.controls)
+    if c1 != c2:
+        o.add("reload-pedals-differ", first=c1[:4], second=c2[:4])
 
 
 def _isint(x):
@@ -749,9 +946,14 @@ SUBCHECKS = [
         oracle,
         strategy=strat,
         budget={"quick": 120, "thorough": 1500},
-        rule="generated single-part scores (pickups, bar-line signature changes, ties, grace notes, chords, 1-3 voices, 1-2 staves, tuplets, articulations) with a performed part aligned note by note (match/deletion/insertion/ornament, pedals, arbitrary ppq/mpq) are saved with save_match and loaded with load_match(create_score=True); non-trivial = (>=1 deletion and >=1 insertion) or a pickup or a beat unit other than the quarter",
+        rule="generated single-part scores (pickups, bar-line signature changes, ties, grace notes, chords, 1-3 voices numbered with or without gaps / from 0 / with two digits, 1-3 staves, tuplets, articulations, alterations -2..2 and None) as Part / Score / list / PartGroup with a performed part (from dictionaries or from a note array, pedal dictionaries with or without track and channel) aligned note by note (match/deletion/insertion/ornament, pedals, arbitrary ppq/mpq) are saved with save_match (out a str, a Path or None) or matchfile_from_alignment (header texts, tempo indication, diff_score_version notes) and loaded with load_match(create_score=True); the loaded triple is saved and loaded again and must denote the same data; the file is loaded again with first_note_at_zero / pedal_threshold; non-trivial = (>=1 deletion and >=1 insertion) or a pickup or a beat unit other than the quarter",
         known=KNOWN,
-        floors={"has-ornament": 0.1, "pedal": 0.15, "pickup": 0.08, "non-quarter-beat": 0.15, "grace": 0.05, "tie-chain": 0.1, "assume-unfolded-false": 0.15},
+        floors={"has-ornament": 0.1, "pedal": 0.15, "pickup": 0.08, "non-quarter-beat": 0.15, "grace": 0.05, "tie-chain": 0.1, "assume-unfolded-false": 0.15,
+                # generator audit
+                "loaded-triple-saved-again": 0.3, "loaded-again-with-options": 0.1, "voice-numbers-with-gaps": 0.1, "double-alteration": 0.2,
+                "natural-stated-as-none": 0.2, "staff-3": 0.03, "score-in-part-group": 0.05, "out:none": 0.05, "out:pathlib": 0.05,
+                "api:from_alignment": 0.06, "header-texts-given": 0.06, "performed-part-from-note-array": 0.04,
+                "pedal-dicts-without-track-channel": 0.05},
     ),
 ]
 
